@@ -6,7 +6,7 @@ take part in cursor rewinds (this replaces the statement's "randomly for longer 
 Oracle: the tiling law itself (no reference model needed), on utoken.scan() and on the token stream utoken.tokenize() hands to the parser.
 """
 from mc.core.runner import InputProp
-from mc.core.space import Seqs, Concat
+from mc.core.space import Seqs, Concat, Product
 
 EBAD = ""
 UNIQ = "\x7fUNIQ-abc123-4-9f-QINU\x7f"
@@ -60,6 +60,25 @@ def check_tiling(text, toks):
     return None
 
 
+LONG_TOKENS = {
+    "word": lambda n: "a" * n,
+    "words": lambda n: ("ab " * (n // 3 + 1))[:n],
+    "non-bmp": lambda n: "\U0001F600" * n,
+    "comment": lambda n: "<!--" + "c" * (n - 7) + "-->",
+    "tag-attrs": lambda n: "<div " + "-" * (n - 6) + ">",  # (a long run of word characters makes parse_params quadratic: 50 s at 70000)
+    "url": lambda n: "http://x.y/" + "a" * (n - 11),
+    "blank-lines": lambda n: "\n" * n,
+    "spaces": lambda n: " " * n,
+    "apostrophes": lambda n: "'" * n,
+    "equals": lambda n: "\n" + "=" * n,
+    "dashes": lambda n: "\n" + "-" * n,
+    "colons": lambda n: "\n" + ":" * n,
+    "entity": lambda n: "&" + "a" * (n - 2) + ";",
+    "digits": lambda n: "1" * n,
+}
+LONG_SIZES = [255, 256, 257, 32767, 32768, 65535, 65536, 65537, 70000, 131072, 200000]
+
+
 class C10(InputProp):
     id = "C10"
     rule = ("every lexeme sequence over the scanner alphabet up to the stated length is scanned by the real "
@@ -72,29 +91,39 @@ class C10(InputProp):
         from mwlib.parser.token import utoken
         self.scan = utoken.scan
         self.tokenize = utoken.tokenize
+        # single tokens of every class around the sizes at which a narrower length field would wrap (2^8, 2^15, 2^16, 2^17)
+        long_ = Product(sorted(LONG_TOKENS), LONG_SIZES if tier != "quick" else [s for s in LONG_SIZES if s <= 70000], ["alone", "between"], name="long")
         if tier == "quick":
-            self.space = Concat(Seqs(SIGMA_S, 3, name="sigma"), Seqs(SIGMA_REWIND, 5, minlen=4, name="rewind"))
+            self.space = Concat(Seqs(SIGMA_S, 3, name="sigma"), Seqs(SIGMA_REWIND, 5, minlen=4, name="rewind"), long_)
         else:
-            self.space = Concat(Seqs(SIGMA_S, 4, name="sigma"), Seqs(SIGMA_REWIND, 7, minlen=5, name="rewind"))
+            self.space = Concat(Seqs(SIGMA_S, 4, name="sigma"), Seqs(SIGMA_REWIND, 7, minlen=5, name="rewind"), long_)
+
+    def text_of(self, case):
+        fam, lex = case
+        if fam == "long":
+            kind, n, where = lex
+            t = LONG_TOKENS[kind](n)
+            return t if where == "alone" else "a [[b]]\n" + t + "\n== h ==\n''c''"
+        return "".join(lex)
 
     def run_case(self, case):
         fam, lex = case
-        text = "".join(lex)
+        text = self.text_of(case)
         toks = self.scan(text)
         bad = check_tiling(text, toks)
         key = tuple(t[0] for t in toks)
         if bad:
-            return {"key": key, "steps": len(toks), "viol": [{"sig": bad[0], "msg": bad[1] + " input=%r tokens=%r" % (text, toks)}]}
+            return {"key": key, "steps": len(toks), "viol": [{"sig": bad[0], "msg": bad[1][:300] + " input=%r tokens=%r" % (text[:80], toks[:8])}]}
         if text:
             # the token stream the parser consumes (CompatScanner splits/retags tokens but must keep the tiling)
             toks2 = [(t.type, t.start, t.len) for t in self.tokenize(text)]
             bad = check_tiling(text, toks2)
             if bad:
-                return {"key": key, "steps": len(toks), "viol": [{"sig": "tokenize:" + bad[0], "msg": bad[1] + " input=%r tokenize() spans=%r" % (text, toks2)}]}
+                return {"key": key, "steps": len(toks), "viol": [{"sig": "tokenize:" + bad[0], "msg": bad[1][:300] + " input=%r tokenize() spans=%r" % (text[:80], toks2[:8])}]}
         return {"key": key, "steps": len(toks)}
 
     def describe(self, case):
-        return {"family": case[0], "text": "".join(case[1])}
+        return {"family": case[0], "text": self.text_of(case)[:200], "case": case[1] if case[0] == "long" else None}
 
     def finish(self, agg):
         errs = []
